@@ -24,7 +24,7 @@ def cases(tier, seed):
             out.append({"variant": "timed", "dtype": "float64", "N": 3, "G": 3, "mask": True, "halflife": 7, "first": first, "gaps": (0, 1, 3),
                         "name": f"_ema_grouped_timed/float64/N=3,G=3/mask=True/halflife=7/gaps (0,1,3)/code sequences starting with {first}"})
     for dt in ("float64", "int64"):
-        out.append({"variant": "ungrouped", "dtype": dt, "N": N, "name": f"grouped(single group) == ema_adjusted/{dt}/N={N}"})
+        out.append({"variant": "ungrouped", "dtype": dt, "N": 4, "name": f"grouped(single group) == ema_adjusted/{dt}/N=4"})
     out.append({"variant": "halflife_api", "name": "ema/ema_grouped(halflife=h): alpha = 1 - 2^(-1/h) for every real h > 0"})
     for unit in ("ns", "us", "ms", "s"):
         out.append({"variant": "timed_api", "unit": unit, "N": 3, "name": f"ema_grouped(halflife='1{unit}', times=datetime64[{unit}])/N=3"})
